@@ -23,6 +23,10 @@ def answer (kv : KV) : String :=
     match inv.bind evalArr with
     | some o => if o.const then "accept" else "reject"
     | none => "unknown"
+  | "hygiene" =>
+    -- an element expression that is the caller's own item / variable `name`: captured by the
+    -- expansion iff the expansion defines an item of that name
+    if GA.Gen.Arr.helperNames.contains (kv.getD "name" "") then "captured" else "accept"
   | "list" =>
     match kv.nat? "k" with
     | some k => showOut (ev (.list ((List.range k).map fun i => ⟨1000 + 7 * i, [i]⟩) (kv.natD "trail" 0)))
